@@ -548,14 +548,35 @@ def stub_table_text(stub):
     return "\n".join(lines)
 
 
+# functions in which in-flight state exists: a share of the line faults (cancel / alloc-fail) is aimed at them instead of at a uniformly drawn line
+AIM = {
+    "calc.new": [("core/calculator.py", "_load"), ("core/calculator.py", "_apply_elastic_constants_symmetry"), ("core/calculator.py", "_interpolate_modes"),
+                 ("core/calculator.py", "_calculate_pressure_static"), ("core/calculator.py", "_process_cij"), ("core/calculator.py", "_calculate_compliances"),
+                 ("core/tasks.py", "resolve"), ("core/tasks.py", "calculate"), ("core/tasks.py", "get_modulus_isothermal"), ("core/tasks.py", "get_modulus_adiabatic"),
+                 ("io/traditional/elast_dat.py", "apply_symetry_on_elast_data"), ("io/traditional/elast_dat.py", "read_elast_data"), ("io/traditional/qha_input.py", "read_energy"),
+                 ("io/config/config.py", "update_config"), ("io/config/config.py", "apply_default_config"), ("util/fill.py", "fill_cij"),
+                 ("core/qha_adapter.py", "_load_qha_calculator"), ("core/mode_gamma.py", "interpolate_modes"), ("core/full_modulus.py", "calculate_phonon_contribution"), ("core/full_modulus.py", "modulus_adiabatic"), ("core/full_modulus.py", "get_static_modulus")],
+    "calc.write": [("core/calculator.py", "write_output"), ("core/calculator.py", "write_variables"), ("core/calculator.py", "write_table"), ("core/calculator.py", "v2p"),
+                   ("io/output/results_writer.py", "write_variable"), ("io/output/results_writer.py", "write_ij_variable"), ("io/output/results_writer.py", "write"),
+                   ("io/traditional/qha_output.py", "save_x_tp"), ("io/traditional/qha_output.py", "save_x_tv")],
+    "calc.read": [("core/calculator.py", "v2p"), ("core/calculator.py", "__getattr__"), ("core/calculator.py", "__getitem__")],
+    "cli.fill": [("util/fill.py", "fill_cij"), ("cli/fill.py", "main")],
+    "cli.extract": [("cli/extract.py", "main"), ("cli/extract.py", "load_data")],
+    "cli.geotherm": [("cli/geotherm.py", "main"), ("cli/geotherm.py", "load_data"), ("cli/geotherm.py", "fit_data")],
+    "io.write_energy": [("io/traditional/qha_input.py", "write_energy")],
+    "io.read_energy": [("io/traditional/qha_input.py", "read_energy"), ("io/traditional/qha_input.py", "_read_volume_data")],
+}
+AIM["cli.run"] = AIM["calc.new"] + AIM["calc.write"]
+
+
 def gen_faults(rng, programs, n):
     faults = []
     targets = [(c, i, op) for c, p in programs.items() for i, op in enumerate(p)
-               if op["op"] in ("calc.new", "calc.write", "cli.run", "calc.read", "cli.fill", "io.write_energy", "io.read_energy", "cli.extract")]
+               if op["op"] in ("calc.new", "calc.write", "cli.run", "calc.read", "cli.fill", "io.write_energy", "io.read_energy", "cli.extract", "cli.geotherm")]
     if not targets:
         return faults
     per_op = {}
-    all_kinds = ["open-fail", "read-fail", "cancel", "alloc-fail", "write-torn"]
+    all_kinds = ["open-fail", "read-fail", "cancel", "alloc-fail", "write-torn", "list-fail"]
     enabled = rng.sample(all_kinds, rng.randint(1, len(all_kinds)))      # swarm: each session enables its own subset of fault kinds
     for _ in range(n):
         biased = [t for t in targets if t[2]["op"] in ("calc.new", "calc.write", "cli.run")]
@@ -565,6 +586,8 @@ def gen_faults(rng, programs, n):
         kinds = ["open-fail", "read-fail", "cancel", "alloc-fail"]
         if op["op"] in ("calc.write", "cli.run", "io.write_energy"):
             kinds += ["write-torn", "write-torn", "write-torn"]
+        if op["op"] in ("cli.extract", "cli.geotherm"):
+            kinds += ["list-fail", "list-fail"]
         kinds = [k for k in kinds if k in enabled] or kinds
         kind = rng.choice(kinds)
         f = {"client": c, "op": i, "attempt": attempt, "kind": kind}
@@ -575,10 +598,15 @@ def gen_faults(rng, programs, n):
         elif kind == "write-torn":
             lo = 7 if op["op"] == "cli.run" else 1
             f["io_seq"] = rng.randint(lo, lo + 5)
-            f["keep"] = round(rng.random(), 3)
+            f["keep"] = 1.0 if rng.random() < 0.15 else round(rng.random(), 3)    # 1.0: everything persisted, the failure is reported late (at flush/close)
+        elif kind == "list-fail":
+            f["errno"] = rng.choice(["EIO", "EMFILE", "EACCES"])
         else:
             hi = {"calc.new": 9000, "cli.run": 11000, "calc.write": 600, "calc.read": 60}.get(op["op"], 200)
             f["line"] = rng.randint(1, hi)
+            if op["op"] in AIM and rng.random() < 0.4:
+                f["func"] = list(rng.choice(AIM[op["op"]]))
+                f["line"] = rng.choice([1, 1, 2, 3, 5, 8, 13, 30])
         faults.append(f)
     return faults
 
@@ -720,7 +748,7 @@ def gen_scenario(prop, seed, tier, faults_enabled=None, nclients=None, segments_
     for n in names:          # the simulated clock (file timestamps) advances before some operations, and only then
         for op in programs[n]:
             if rng.random() < 0.25:
-                op["tick"] = rng.choice([1, 1, 2, 3, 60, 3600, 86400])
+                op["tick"] = rng.choice([1, 1, 2, 3, 60, 3600, 86400, -1, -3600])    # negative: the clock is stepped back
     extra = []
     for n in names:
         w = worlds[n]
